@@ -56,6 +56,13 @@ Clauses added by the parameter-coverage audit:
                                   points / only the values; accuracy_on_data documents the sentinel -1): never stop 'e_vld',
                                   sweep count, stop reason and tensor equal those of the call without e_vld (alone, with a
                                   huge e, with a stopping callback, nswp = 0; constant-rank and adaptive mode).
+* C07.als.adaptive_lone_pair      (gap closure, input FORMS of the training list) rank-adaptive mode on SPARSE lists: a pair of
+                                  neighbouring indices (i_k, i_k+1) - the unit of the two-core solve - covered by exactly ONE
+                                  sample that stands first / last / in the middle / second (thorough: anywhere) in the list, at
+                                  one bond (each in turn) or at all bonds, other pairs covered twice or once: contract of the
+                                  adaptive mode; the same samples in another random order denote the same tensor (<= 1e5 eps
+                                  kappa2, kappa2 = condition of the pair systems; observed <= 1.2e2 over 12000 cases); without
+                                  truncation (r = full rank, e_adap <= 1e-12) the tensor changes when the lone value changes.
 Every general clause takes an optional `opt` dictionary (see _problem / _als / _fproblem / _alsf): the same problem
 at another absolute scale (y -> c y, cores of Y0 -> c^(1/d), lamb -> c^(2(d-1)/d) lamb; c = 1e-12 .. 1e12), y or Y0
 alone scaled by 1e+-3 .. 1e+-12, nested-list / int8 / int32 / float32 argument forms, Fortran-ordered and
@@ -90,7 +97,10 @@ BOUNDS = ('als: d in 2..4 (5, 6; 8 thorough), n_k in 1..4 (12; 30 thorough), ran
           'lists with <= 14 samples for every mode (also weighted); adaptive mode: e_adap {1e-1,1e-3,1e-12}, r_add '
           '{0,1,2,1e4}, use_stab, allow_swap (3-5 modes of different size, 12 + 5 cases quick); update_sol; als_func: '
           'd in 2..4, n in 2..4 Chebyshev modes or own basis functions (monomials / cosines), 30..60 points; e_vld in '
-          '{0,1e-6,1,1e10} without / with half a validation set (als: 5 shapes, both modes; als_func: 3 configurations)')
+          '{0,1e-6,1,1e10} without / with half a validation set (als: 5 shapes, both modes; als_func: 3 configurations); '
+          'adaptive mode on sparse lists: a pair of neighbouring indices with ONE sample at list position first / last / middle / '
+          'second (thorough: any), every bond of 4 shapes (13 thorough, d = 3..5), alone at one bond / at all bonds, other pairs '
+          'covered 2x / 1x (+6 random samples), rank cap binding (r < n_0, n_d-1) or no truncation (r = full, e_adap 0 / 1e-14)')
 
 ALS = ('als.als', 'als._optimize_core', 'als._lstsq', 'utils._info_appr')
 ALSF = ('als_func.als_func', 'als_func._optimize_core', 'utils._info_appr')
@@ -589,6 +599,163 @@ def adaptive_ranks(n, r0, r, r_add, m, lamb, weighted, nswp, seed, kind, opt=Non
     Y = _als(opt, I, y, Y0, nswp=nswp, e=None, info=info, r=r, r_add=r_add, lamb=lamb, w=w)
     msg = _adaptive_result(Y, Y0, info, n, r, nswp)
     return check(msg is None, msg)
+
+
+def _lone_pair_case(n, seed, bond, lone, cover, m):
+    """Sparse training list for the rank-adaptive mode (two-core solves, one ridge system per pair (i_k, i_k+1) of neighbouring
+    indices): ONE sample - the lone one - is the only sample of the list with its index pair at `bond` (lone = 'one') or at
+    EVERY bond (lone = 'all'; then no other sample shares any neighbouring pair with it); every other pair of every bond gets
+    `cover` samples (cover = 1: a list in which most pairs are covered once) plus m random ones; every single slice of every
+    mode is covered.  Returns (rest rows shuffled, lone row) or None if the mode sizes leave no room."""
+    d = len(n)
+    bonds = [bond] if lone == 'one' else list(range(d - 1))
+    if d < 3 or not 0 <= bond < d - 1 or any(n[q] * n[q + 1] < 2 for q in bonds) or (lone == 'all' and min(n) < 2):
+        return None
+    g = gen.rng('C07lone', n, seed, bond, lone, cover, m)
+    single = [int(g.integers(0, q)) for q in n]
+
+    def clash(row):
+        return any(row[q] == single[q] and row[q + 1] == single[q + 1] for q in bonds)
+
+    def draw(fix):
+        for _ in range(400):
+            row = [int(g.integers(0, q)) for q in n]
+            for k, v in fix.items():
+                row[k] = v
+            if not clash(row):
+                return row
+        return None
+
+    rows = []
+    for q in range(d - 1):
+        for a in range(n[q]):
+            for b in range(n[q + 1]):
+                if q in bonds and (a, b) == (single[q], single[q + 1]):
+                    continue
+                for _ in range(cover):
+                    row = draw({q: a, q + 1: b})
+                    if row is not None:
+                        rows.append(row)
+    for _ in range(m):
+        row = draw({})
+        if row is not None:
+            rows.append(row)
+    rest = np.array(rows, dtype=int).reshape(-1, d)
+    if len(rest) < 2:
+        return None
+    rest = rest[g.permutation(len(rest))]
+    full = np.vstack([rest, [single]])
+    if any(len(np.unique(full[:, k])) != n[k] for k in range(d)):
+        return None
+    return rest, np.array(single, dtype=int)
+
+
+def _kappa2(Ys, I, lamb, w):
+    """Largest condition number (|A^T W A| + lamb) / lamb of the ridge systems of the TWO-core solves (one system per pair
+    (i_k, i_k+1) that carries samples, A = rows kron(left interface of core k, right interface of core k+1)), evaluated at
+    the given tensors."""
+    ww = np.ones(len(I)) if w is None else np.asarray(w, dtype=float)
+    kap = 1.0
+    for Y in Ys:
+        for k in range(len(Y) - 1):
+            L, _ = _interfaces(Y, I, k)
+            _, R = _interfaces(Y, I, k + 1)
+            key = I[:, k] * Y[k + 1].shape[1] + I[:, k + 1]
+            for v in np.unique(key):
+                idx = np.where(key == v)[0]
+                A = (L[idx][:, :, None] * R[idx][:, None, :]).reshape(len(idx), -1)
+                sn = np.linalg.norm(np.sqrt(ww[idx])[:, None] * A, 2) ** 2
+                kap = max(kap, (sn + lamb) / lamb)
+    return float(kap)
+
+
+def _place(rest, y_rest, w_rest, single, y_single, w_single, p):
+    I = np.vstack([rest[:p], single[None, :], rest[p:]])
+    y = np.concatenate([y_rest[:p], [y_single], y_rest[p:]])
+    w = None if w_rest is None else np.concatenate([w_rest[:p], [w_single], w_rest[p:]])
+    return I, y, w
+
+
+LONE_TOL = 1e5          # "same tensor" in the adaptive mode: <= LONE_TOL * eps * kappa2 (relative, Frobenius)
+LONE_DEV = 1e-6         # "another tensor": max-norm change > LONE_DEV * (1 + max|tensor|) after the lone value moved by >= 5
+
+
+@clause('C07.als.adaptive_lone_pair', funcs=('als.als', 'als._optimize_core_adaptive', 'als._lstsq'))
+def adaptive_lone_pair(n, r0, r, lamb, nswp, seed, bond, lone, pos, cover=2, m=0, weighted=False, kind='noise', e_adap=None,
+                       opt=None):
+    """Rank-adaptive mode on a SPARSE training list: some pair of neighbouring indices is covered by exactly one sample, and
+    that sample stands at list position pos (0 = first, -1 = last, -2 = middle, else the position itself).  (a) contract of the
+    adaptive mode (mode sizes, ranks <= r, finite, info); (b) the result does not depend on the sample order: the same samples in
+    another random order with the lone sample at another position (never 0: with cover = 2 no sample that is alone in a pair
+    then stands first) denote the same tensor, ranks included; (c) when nothing is truncated (r >= the largest rank any unfolding can have and
+    e_adap <= 1e-12; a binding rank cap may legitimately cut the lone sample's own rank-one component off) the lone sample
+    takes part in the fit: its pair's block of the two-core solve is determined by its value alone, so a value moved by >= 5
+    gives another tensor (lone = 'all': the sample shares no neighbouring pair with any other sample - a run that skips
+    single-sample pairs does not see it at all).  e_adap: None = the library's default 1e-3."""
+    case = _lone_pair_case(n, seed, bond, lone, cover, m)
+    if case is None:
+        return SKIP('no such training list for these mode sizes')
+    rest, single = case
+    g = gen.rng('C07loney', n, seed, bond, lone)
+    nr = len(rest)
+    if kind == 'lowrank':
+        Yt = gen.tt(n, 2, seed + 1, 'gauss')
+        y_rest, y_single = _vals(Yt, rest), float(_vals(Yt, single[None, :])[0])
+    else:
+        y_rest, y_single = g.normal(size=nr), float(g.normal())
+    w_rest, w_single = (g.uniform(0.2, 3.0, size=nr), float(g.uniform(0.2, 3.0))) if weighted else (None, None)
+    p = {0: 0, -1: nr, -2: nr // 2}.get(pos, min(max(pos, 0), nr))
+    q = 1 + nr // 3
+    q = q + 1 if q == p else q
+    q = min(q, nr) if min(q, nr) != p else max(1, nr - 1)
+    if q == p or q == 0:
+        return SKIP('list too short for two different positions')
+    Y0 = gen.tt(n, r0, seed, 'gauss')
+
+    perm = g.permutation(nr)            # the reference order: everything else reshuffled too
+
+    def run(where, ys, shuffled=False):
+        sel = perm if shuffled else np.arange(nr)
+        I, y, w = _place(rest[sel], y_rest[sel], None if w_rest is None else w_rest[sel], single, ys, w_single, where)
+        info = {}
+        Y = _als(opt, I, y, Y0, nswp=nswp, e=None, info=info, r=r, lamb=lamb, w=w, **ekw)
+        return Y, info, I, y, w
+
+    ekw = {} if e_adap is None else dict(e_adap=e_adap)
+    Ya, ia, I, y, w = run(p, y_single)
+    Yb, ib, Ib, yb, wb = run(q, y_single, shuffled=True)
+    tag = f'lone sample {single.tolist()} (only one with its pair at ' + \
+          (f'bond {bond}' if lone == 'one' else 'every bond') + f') at position {p} of {nr + 1}'
+    for what, Y, info in ((tag, Ya, ia), (f'the same samples reshuffled, the lone sample at position {q}', Yb, ib)):
+        msg = _adaptive_result(Y, Y0, info, n, r, nswp)
+        if msg:
+            return FAIL(f'{what}: {msg}')
+    kap = _kappa2([Y0, Ya, Yb], I, lamb, w)
+    if kap > KAPPA_MAX:
+        return _ill(kap)
+    ra, rb = [G.shape[2] for G in Ya[:-1]], [G.shape[2] for G in Yb[:-1]]
+    A, B = gen.dense(Ya), gen.dense(Yb)
+    dist, nrm = float(np.linalg.norm(A - B)), float(np.linalg.norm(B))
+    tol = LONE_TOL * EPS * kap
+    if not dist <= tol * nrm + 1e-100:
+        return FAIL(f'{tag}: the result differs from the one for the same samples reshuffled with the lone sample at position {q}: relative '
+                    f'distance of the denoted tensors {dist / max(nrm, 1e-300):.3e} > {tol:.1e} (kappa {kap:.1e}; ranks {ra} vs {rb})')
+    if ra != rb:
+        return FAIL(f'{tag}: ranks {ra}, with the lone sample at position {q}: {rb}')
+    d = len(n)
+    rfull = max(min(int(np.prod(n[:k + 1])), int(np.prod(n[k + 1:]))) for k in range(d - 1))
+    if not (r >= rfull and e_adap is not None and e_adap <= 1e-12):
+        return PASS
+    delta = 5.0 + abs(y_single)
+    Yc, ic, _, _, _ = run(p, y_single + delta)
+    msg = _adaptive_result(Yc, Y0, ic, n, r, nswp)
+    if msg:
+        return FAIL(f'{tag}, value changed by {delta:.2f}: {msg}')
+    dev = float(np.abs(gen.dense(Yc) - A).max())
+    if not dev > LONE_DEV * (1.0 + float(np.abs(A).max())):
+        return FAIL(f'{tag}: changing its value from {y_single:.4f} to {y_single + delta:.4f} changes the result by {dev:.3e} '
+                    f'only: the sample takes no part in the fit')
+    return PASS
 
 
 @clause('C07.als.adaptive_use_stab', funcs=('als.als', 'als._optimize_core_adaptive', 'transformation.orthogonalize'), replay_only=True)
@@ -1444,6 +1611,44 @@ def cases(tier, seed):
                 yield 'C07.als_func.info_stop_no_vld', dict(d=d, nm=nm, r=r, m=int(g2.integers(30, 61)), lamb=LAMBS[1 + k % 5],
                                                             nswp=2 + k % 3, seed=sd(), box=[[-1.0, 1.0], [0.0, 0.5]][k % 2],
                                                             e_vld=e_vld, vld=vld)
+    # (N) rank-adaptive mode on sparse training lists: a pair of neighbouring indices covered by ONE sample that stands first /
+    # last / in the middle / second in the list; at one bond (every bond in turn) or at all bonds; other pairs covered twice
+    # (or once: cover = 1) (+ random samples); with a binding rank cap and the default e_adap (order independence) and without
+    # any truncation (r = full rank, e_adap = 1e-14: order independence + sensitivity to the lone value)
+    g4 = gen.rng('C07lone', seed)
+    k = 0
+    # (with r >= n_0 the left factor of the FIRST two-core solve of a sweep spans the whole space whatever its blocks are and all
+    # later solves start afresh - the result is then insensitive to that solve; so the capped cases keep r < n_0, n_d-1)
+    for n in ([3, 3, 3], [4, 3, 4], [4, 2, 3], [3, 2, 2, 3]) + \
+            (([2, 2, 2], [2, 3, 2], [3, 2, 2], [2, 2, 2, 2], [2, 3, 2, 2], [3, 3, 2, 3], [3, 2, 2, 2, 3], [2, 1, 3], [3, 4, 3])
+             if big else ()):
+        d = len(n)
+        rfull = max(min(int(np.prod(n[:q + 1])), int(np.prod(n[q + 1:]))) for q in range(d - 1))
+        for bond in range(d - 1):
+            for lone in ('one', 'all'):
+                for pos in (0, -1, -2, 1):
+                    for full in (False, True):
+                        for rep in range(3 if big else 1):
+                            k += 1
+                            if not big and pos == 1 and (k + bond) % 2:
+                                continue
+                            rcap = max(1, min(2 + k % 2, min(n[0], n[-1]) - 1))
+                            p = dict(n=n, r0=min(1 + k % 2, rcap), r=rcap, lamb=LAMBS[k % 6], nswp=1 + k % 3,
+                                     seed=int(g4.integers(1 << 30)), bond=bond, lone=lone, pos=pos,
+                                     cover=1 if k % 5 == 0 else 2, m=(0, 0, 6)[k % 3], weighted=bool((k // 2) % 2),
+                                     kind=('noise', 'lowrank')[(k // 3) % 2])
+                            if full:
+                                p.update(r=rfull, e_adap=(1e-14, 0.0)[k % 2])
+                            elif k % 7 == 0:
+                                p.update(e_adap=1e-1)
+                            yield 'C07.als.adaptive_lone_pair', p
+    for rep in range(400 if big else 0):        # random: any position of the lone sample
+        n = [int(x) for x in g4.integers(2, 4, size=int(g4.integers(3, 5)))]
+        yield 'C07.als.adaptive_lone_pair', dict(
+            n=n, r0=int(g4.integers(1, 3)), r=int(g4.integers(2, 5)), lamb=LAMBS[rep % 6], nswp=int(g4.integers(1, 4)),
+            seed=int(g4.integers(1 << 30)), bond=int(g4.integers(0, len(n) - 1)), lone=('one', 'all')[rep % 2],
+            pos=int(g4.integers(0, 40)), cover=int(g4.integers(1, 3)), m=int(g4.integers(0, 10)), weighted=bool(rep % 3 == 0),
+            kind=('noise', 'lowrank')[(rep // 2) % 2])
     # functional version
     k = 0
     for d in (2, 3, 4):
